@@ -203,6 +203,7 @@ def run_case(case):
 def fresh_interpreter_solo(ops):
     """observations of single ops, each in a brand-new interpreter (validates the worker reset)"""
     code = ("import sys, json, os, tempfile; sys.path.insert(0, %r); os.chdir(tempfile.mkdtemp(prefix='pyx_')); "
+            "sys.path.insert(0, os.environ['PYX_REPO']) if os.environ.get('PYX_REPO') else None; "
             "import warnings; warnings.simplefilter('ignore'); "
             "from pyx.props import C13; import io, contextlib; b = io.StringIO()\n"
             "with contextlib.redirect_stdout(b):\n    o, d, h = C13.replay([json.loads(sys.argv[1])])\n"
